@@ -122,8 +122,8 @@ def denotes(src, target, path, problems, part):
             xyz, _shells, ca, cb, _nindep = wfreaders.fchk_model(table)
             bv_file = wfreaders.fchk_basis_at(table, gto.PROBE_POINTS)
         else:
-            if target == "molden":
-                table = wfreaders.read_molden(text)
+            if target in ("molden", "molekel"):
+                table = wfreaders.read_molden(text) if target == "molden" else wfreaders.read_molekel(text)
                 xyz = table["xyz"]
                 v_file = wfreaders.molden_orbitals_at(table, gto.PROBE_POINTS)
             else:
@@ -249,7 +249,7 @@ def run_case(part, src, target, allow, info, tmp, tag):
             problems.append(("announced", f"returned object {'differs from' if out is not src else 'is'} the argument but PrepareDumpWarning issued={warned}"))
     elif out is not src:
         problems.append(("announced", "allow_changes=False but a different object was written"))
-    if target in ("fchk", "wfn", "wfx", "molden"):
+    if target in wfn.TARGETS:
         try:
             denotes(src, target, path, problems, part)
         except Exception as exc:  # noqa: BLE001
